@@ -8,8 +8,8 @@
 (***************************************************************************)
 EXTENDS XPools, XCatalog, Json, CSV, IOUtils, SequencesExt
 
-CONSTANTS Family, MaxNodes, UseCat,
-          ElemNames, AttrNames, TextVals, WithComment, Parts
+CONSTANTS Family, MaxNodes, UseCat, UseVal,
+          ElemNames, AttrNames, TextVals, WithComment
 
 VARIABLES doc, grow, part, expr
 vars == <<doc, grow, part, expr>>
@@ -26,28 +26,52 @@ FlatPaths ==
     \cup {Path(TRUE, <<DosNode, Step("child", nt, <<>>)>>) : nt \in TestsAB}
     \cup {Path(FALSE, <<Step("descendant", nt, <<>>)>>) : nt \in TestsAB}
 
-Pool ==
-    CASE Family = "C02a"  -> PoolC02a(AllAxes, TestsA, AllAxes, TestsA)
-      [] Family = "C02a-small" -> PoolC02a({"child", "descendant", "self", "following-sibling", "ancestor"}, {NTAny},
-                                           AllAxes, TestsA)
-      [] Family = "C02b"  -> PoolC02b({"child", "descendant", "following", "preceding-sibling", "ancestor-or-self"}, {NTAny},
-                                Combos({Rel1(ax, NTName("a")) : ax \in {"child", "ancestor", "following", "preceding", "descendant", "parent"}}
-                                       \cup {Bin("=", Rel1("child", NTAny), Lit("1"))})
-                                \cup Nested({"child", "ancestor", "following-sibling", "descendant"}, {NTAny},
-                                            Atoms1({"child", "ancestor", "following", "preceding-sibling"}, {NTName("a")})))
-      [] Family = "C02two" -> PoolC02two({"child", "descendant", "following-sibling", "ancestor"}, {NTAny},
-                                Atoms1({"child", "ancestor", "following", "preceding"}, {NTName("a")}))
-      [] Family = "C02paren" -> PoolC02paren(FlatPaths, Atoms1({"child", "ancestor", "following", "preceding-sibling", "parent"}, TestsA))
-      [] Family = "C03a"  -> PoolC03a(TestsAB, 3)
-      [] Family = "C03b"  -> PoolC03b(TestsA, 2, {Rel1("child", NTAny), Call("not", <<Rel1("child", NTAny)>>),
-                                                  Bin("=", SelfDot, Lit("1")), Rel1("following-sibling", NTName("a")),
-                                                  Rel1("ancestor", NTName("a"))})
-      [] Family = "C03paren" -> PoolC03paren(FlatPaths, 4)
+(***************************************************************************)
+(* The pool of a family is a SEQUENCE of sets (never one big union: TLC's  *)
+(* set union is quadratic on large sets of records).  The explorer first   *)
+(* picks a component, then a member.                                       *)
+(***************************************************************************)
+HostAxes5 == {"child", "descendant", "self", "following-sibling", "ancestor"}
+PredAxesB == {"child", "ancestor", "following", "preceding", "descendant", "parent"}
+ArithLeaves == NumLeavesSmall \cup NumLeavesDoc
+D2M == {N(2), Dec(1, 1), N(0), Call("count", <<Rel1("child", NTAny)>>), NaNExpr}
+OpSeq == <<"+", "-", "*", "div", "mod">>
+BinOp(op, X, Y) == {Bin(op, x, y) : x \in X, y \in Y}
 
-PoolSeq == SetToSeq(Pool)
-NPool == Len(PoolSeq)
-PartLo(p) == ((p - 1) * NPool) \div Parts + 1
-PartHi(p) == (p * NPool) \div Parts
+PoolSets ==
+    CASE Family = "C02a"  -> [i \in 1 .. 12 |-> PoolC02a({SetToSeq(AllAxes)[i]}, TestsA, AllAxes, TestsA)]
+      [] Family = "C02a-small" -> [i \in 1 .. 5 |-> PoolC02a({SetToSeq(HostAxes5)[i]}, {NTAny}, AllAxes, TestsA)]
+      [] Family = "C02b"  ->
+           << PoolC02b({"child", "descendant", "following", "preceding-sibling", "ancestor-or-self"}, {NTAny},
+                       Combos({Rel1(ax, NTName("a")) : ax \in PredAxesB} \cup {Bin("=", Rel1("child", NTAny), Lit("1"))})),
+              PoolC02b({"child", "descendant", "following", "preceding-sibling", "ancestor-or-self"}, {NTAny},
+                       Nested({"child", "ancestor", "following-sibling", "descendant"}, {NTAny},
+                              Atoms1({"child", "ancestor", "following", "preceding-sibling"}, {NTName("a")}))) >>
+      [] Family = "C02two" -> [i \in 1 .. 4 |-> PoolC02two({SetToSeq({"child", "descendant", "following-sibling", "ancestor"})[i]}, {NTAny},
+                                Atoms1({"child", "ancestor", "following", "preceding"}, {NTName("a")}))]
+      [] Family = "C02paren" -> <<PoolC02paren(FlatPaths, Atoms1({"child", "ancestor", "following", "preceding-sibling", "parent"}, TestsA))>>
+      [] Family = "C03a"  -> <<PoolC03a(TestsAB, 3)>>
+      [] Family = "C03b"  -> <<PoolC03b(TestsA, 2, {Rel1("child", NTAny), Call("not", <<Rel1("child", NTAny)>>),
+                                                    Bin("=", SelfDot, Lit("1")), Rel1("following-sibling", NTName("a")),
+                                                    Rel1("ancestor", NTName("a"))})>>
+      [] Family = "C03paren" -> <<PoolC03paren(FlatPaths, 4)>>
+      [] Family = "C07cmp"  -> PoolC07cmpSets
+      [] Family = "C07bool" -> <<PoolC07bool>>
+      [] Family = "C07pred" -> [i \in 1 .. Len(PoolC07cmpSets) |-> AsPredicate(PoolC07cmpSets[i])] \o <<AsPredicate(PoolC07bool)>>
+      [] Family = "C08d1"   -> <<ArithLeaves, NumUnary(ArithLeaves), PoolC08str(ArithLeaves)>>
+                               \o [i \in 1 .. 5 |-> BinOp(OpSeq[i], ArithLeaves, ArithLeaves)]
+      [] Family = "C08d2"   -> [i \in 1 .. 5 |-> BinOp(OpSeq[i], NumBinary(NumLeavesSmall, NumLeavesSmall), D2M)]
+                               \o [i \in 1 .. 5 |-> BinOp(OpSeq[i], D2M, NumBinary(NumLeavesSmall, NumLeavesSmall))]
+                               \o <<NumUnary(NumBinary(NumLeavesSmall, NumLeavesSmall)), NumBinary(NumUnary(NumLeavesSmall), D2M)>>
+      [] Family = "C08d2big" -> [i \in 1 .. 5 |-> BinOp(OpSeq[i], NumBinary(ArithLeaves, ArithLeaves), NumLeavesSmall)]
+                               \o [i \in 1 .. 5 |-> BinOp(OpSeq[i], NumLeavesSmall, NumBinary(ArithLeaves, ArithLeaves))]
+                               \o <<NumUnary(NumBinary(ArithLeaves, ArithLeaves)), NumBinary(NumUnary(ArithLeaves), NumLeavesSmall)>>
+      [] Family = "C09two"  -> PoolC09twoSets
+      [] Family = "C09one"  -> <<PoolC09one>>
+      [] Family = "C09sub"  -> <<PoolC09sub>>
+      [] Family = "C09nest" -> <<PoolC09nest>>
+
+NParts == Len(PoolSets)
 
 NewNodes(d) ==
     UNION { {Node("elem", n, "", "", p, "") : n \in ElemNames}
@@ -60,21 +84,23 @@ Init ==
     /\ expr = NoExpr /\ part = 0
     /\ \/ MaxNodes > 1 /\ doc = EmptyDoc /\ grow = TRUE
        \/ UseCat /\ \E i \in 1 .. Len(Catalogue) : doc = Catalogue[i] /\ grow = FALSE
+       \/ UseVal /\ \E i \in 1 .. Len(ValDocs) : doc = ValDocs[i] /\ grow = FALSE
 
 AddNode ==
-    /\ grow /\ part = 0 /\ Len(doc) < MaxNodes
+    /\ grow /\ part = 0 /\ expr = NoExpr /\ Len(doc) < MaxNodes
     /\ \E nd \in NewNodes(doc) : CanAdd(doc, nd) /\ doc' = Append(doc, nd)
     /\ UNCHANGED <<grow, part, expr>>
 
 PickPart ==
-    /\ part = 0 /\ Len(doc) > 1
-    /\ \E p \in 1 .. Parts : part' = p
+    /\ part = 0 /\ expr = NoExpr /\ Len(doc) > 1
+    /\ \E p \in 1 .. NParts : part' = p
     /\ UNCHANGED <<doc, grow, expr>>
 
 PickExpr ==
     /\ part > 0 /\ expr = NoExpr
-    /\ \E i \in PartLo(part) .. PartHi(part) : expr' = PoolSeq[i]
-    /\ UNCHANGED <<doc, grow, part>>
+    /\ \E e \in PoolSets[part] : expr' = e
+    /\ part' = 0
+    /\ UNCHANGED <<doc, grow>>
 
 Next == AddNode \/ PickPart \/ PickExpr
 Spec == Init /\ [][Next]_vars
